@@ -165,8 +165,51 @@ pub struct Built {
     pub layout: Layout,
     pub snapshot: Vec<Option<Core>>,
     pub debug_text: Option<Result<String, String>>,
+    /// how many times `Dispatcher::setup` was called (1 + lifecycle `Setup` ops)
+    pub expected_setups: u64,
+    /// differences between the world after setup and the reference world (C13)
+    pub setup_problems: Vec<String>,
     #[cfg(feature = "par")]
     pub pool: Option<Pool>,
+}
+
+#[derive(Clone, Copy, Debug, PartialEq)]
+enum ModelVal {
+    Absent,
+    Sentinel(Core),
+    Created,
+}
+
+fn declared_mask(ctx: &Ctx) -> u32 {
+    ctx.infos.iter().fold(0, |m, i| m | i.rmask | i.wmask)
+}
+
+/// Reference model of `setup`: creates exactly the declared resources that are absent.
+fn model_setup(model: &mut [ModelVal], declared: u32) {
+    for (l, m) in model.iter_mut().enumerate() {
+        if declared & (1 << l) != 0 && *m == ModelVal::Absent {
+            *m = ModelVal::Created;
+        }
+    }
+}
+
+fn compare_model(ctx: &Ctx, world: &mut World, model: &[ModelVal], when: &str, out: &mut Vec<String>) {
+    let snap = snapshot_world(ctx, world);
+    for (l, (m, w)) in model.iter().zip(snap.iter()).enumerate() {
+        match (m, w) {
+            (ModelVal::Absent, None) => {}
+            (ModelVal::Absent, Some(c)) => out.push(format!("{}: logical resource {} is declared by no system but exists after setup ({:?})", when, l, c)),
+            (ModelVal::Sentinel(c), Some(x)) if c == x => {}
+            (ModelVal::Sentinel(c), Some(x)) => out.push(format!("{}: logical resource {} existed with {:?} before setup and holds {:?} afterwards (clobbered)", when, l, c, x)),
+            (ModelVal::Sentinel(_), None) => out.push(format!("{}: logical resource {} existed before setup and is gone afterwards", when, l)),
+            (ModelVal::Created, Some(x)) => {
+                if *x != default_core(l) && *x != Core::default() {
+                    out.push(format!("{}: logical resource {} was created by setup with a non-default value {:?}", when, l, x));
+                }
+            }
+            (ModelVal::Created, None) => out.push(format!("{}: logical resource {} is accessed through a default-providing accessor but does not exist after setup", when, l)),
+        }
+    }
 }
 
 pub fn snapshot_world(ctx: &Ctx, w: &mut World) -> Vec<Option<Core>> {
@@ -326,8 +369,43 @@ pub fn build(sc: &Scenario, opts: &BuildOpts) -> Built {
         None
     };
     let mut disp = b.build();
+    let mut expected_setups = 0;
+    let mut setup_problems = Vec::new();
     if opts.do_setup {
+        use crate::plan::LifeOp;
+        let declared = declared_mask(&ctx);
+        let mut model: Vec<ModelVal> = sc
+            .resmap
+            .iter()
+            .enumerate()
+            .map(|(l, _)| if sc.present[l] { ModelVal::Sentinel(Core { v: 7_000_000 + l as u64 * 13, ca: 5, cb: 5 }) } else { ModelVal::Absent })
+            .collect();
         disp.setup(&mut world);
+        expected_setups = 1;
+        model_setup(&mut model, declared);
+        compare_model(&ctx, &mut world, &model, "first setup", &mut setup_problems);
+        for op in &sc.lifecycle {
+            match op {
+                LifeOp::Remove(l) if *l < sc.resmap.len() => {
+                    let k = sc.resmap[*l];
+                    (k.vt().remove)(&mut world, k.dynid);
+                    model[*l] = ModelVal::Absent;
+                }
+                LifeOp::Put(l) if *l < sc.resmap.len() => {
+                    let k = sc.resmap[*l];
+                    let c = Core { v: 9_000_000 + *l as u64, ca: 7, cb: 7 };
+                    (k.vt().insert)(&mut world, k.dynid, c);
+                    model[*l] = ModelVal::Sentinel(c);
+                }
+                LifeOp::Setup => {
+                    disp.setup(&mut world);
+                    expected_setups += 1;
+                    model_setup(&mut model, declared);
+                    compare_model(&ctx, &mut world, &model, "repeated setup", &mut setup_problems);
+                }
+                _ => {}
+            }
+        }
     }
     let layout = if opts.do_setup { identify(&ctx, &mut disp, &world) } else { Layout::default() };
     // identification left run counters etc. behind
@@ -344,6 +422,8 @@ pub fn build(sc: &Scenario, opts: &BuildOpts) -> Built {
         layout,
         snapshot,
         debug_text,
+        expected_setups,
+        setup_problems,
         #[cfg(feature = "par")]
         pool,
     }
